@@ -91,5 +91,5 @@ func genC04(t *rapid.T) c04Case {
 func init() { register("C04", checkC04) }
 
 func TestC04(t *testing.T) {
-	runProp(t, "C04", checkC04, nil, part[c04Case]{"modifier-grammar", scale(6000, 60000), genC04})
+	runProp(t, "C04", checkC04, nil, part[c04Case]{"modifier-grammar", scale(15000, 60000), genC04})
 }
